@@ -6,5 +6,6 @@ Lemma C02_consts_ok :
   c_invoke = core_invokeFelt /\ c_declare = core_declareFelt /\ c_l1_handler = core_l1HandlerFelt /\
   c_deploy_account = core_deployAccountFelt /\ c_block_hash0 = core_starknetBlockHash0 /\
   c_block_hash1 = core_starknetBlockHash1 /\ c_gas_prices0 = core_starknetGasPrices0 /\
-  c_state_diff0 = core_starknetStateDiff0 /\ Z.of_nat CH = core_commitmentTrieHeight.
+  c_state_diff0 = core_starknetStateDiff0 /\ Z.of_nat CH = core_commitmentTrieHeight /\
+  c_contract_class_v = core_contractClassVersionPrefix.
 Proof. repeat split; reflexivity. Qed.
